@@ -2,6 +2,7 @@ package hsim
 
 import (
 	"fmt"
+	"sort"
 	"time"
 
 	"hagallsim/simrt"
@@ -26,6 +27,7 @@ type Profile struct {
 	SeqOnly     bool
 	MinMembers  int // try to get that many members into S0 early
 	Flags       bool
+	PEndgame    float64 // share of the blocks in which a whole session leaves at once
 	PDie        float64 // share of the departures that are protocol errors instead of closes
 }
 
@@ -361,6 +363,39 @@ func GenHistory(seed uint64, p *Profile) *Scenario {
 			if len(lj) < 2 {
 				continue
 			}
+			if p.PEndgame > 0 && r.Bool(p.PEndgame) {
+				// every member of one session leaves at the same instant while a fresh connection
+				// creates a session (id reuse) and another joins the dying one by id
+				bySess := map[string][]int{}
+				for _, c2 := range lj {
+					bySess[g.joined[c2]] = append(bySess[g.joined[c2]], c2)
+				}
+				var names []string
+				for n2, m := range bySess {
+					if len(m) <= 3 && n2 != "new" {
+						names = append(names, n2)
+					}
+				}
+				sort.Strings(names)
+				if len(names) > 0 {
+					victim := names[r.Intn(len(names))]
+					g.nextBlk++
+					for _, c2 := range bySess[victim] {
+						g.steps = append(g.steps, Step{Conn: c2, Op: "close", Block: g.nextBlk})
+						g.dead[c2] = true
+						g.joined[c2] = ""
+					}
+					if nc, ok := g.freshConn(); ok {
+						g.steps = append(g.steps, Step{Conn: nc, Op: "join", Sess: "new", Block: g.nextBlk})
+						g.joined[nc] = "new"
+					}
+					if nc, ok := g.freshConn(); ok && r.Bool(0.5) {
+						g.steps = append(g.steps, Step{Conn: nc, Op: "join", Sess: victim, Block: g.nextBlk})
+						g.joined[nc] = victim
+					}
+					continue
+				}
+			}
 			g.nextBlk++
 			perm := r.Perm(len(lj))
 			used := 0
@@ -398,6 +433,10 @@ func GenHistory(seed uint64, p *Profile) *Scenario {
 					st.NoPose = false
 					if op == "type_add" {
 						st.Name = typeNames[g.nextBlk%3] // the members of a block register the same name
+					}
+					if op == "comp_add" && r.Bool(0.6) {
+						// ... and add the same component
+						st.Typ, st.Ent = Ref{K: "reg", I: g.nextBlk % 3}, Ref{K: "any", I: g.nextBlk % 3}
 					}
 				}
 				st.Block = g.nextBlk
@@ -451,6 +490,7 @@ func genWorld(seed uint64, r *simrt.Rand, p *Profile) WorldCfg {
 	}
 	if w.Policy != "seq" {
 		w.SelectOrder = []string{"", "", "", "source", "reverse"}[r.Intn(5)]
+		w.UnlockYield = []float64{0, 0, 0.2, 0.5}[r.Intn(4)]
 	}
 	if w.Policy != "seq" && r.Bool(0.3) {
 		w.StallProb = 0.002
